@@ -12,8 +12,9 @@ SPEC = {
             "expansion, new_ids, to/from_parse_tree}, each followed by a random-order subset of observations compared with "
             "the nested-list model (including near-copy pairs - one leaf flipped open<->closed-empty, one label changed, one "
             "child dropped - on which structurally_equal => equal structural_hash is judged in both directions); distinct = distinct (grammar, operation-kind sequence, tree-size bucket) shapes; a "
-            "history counts only if >= 1 mutating operation and >= 5 observations were judged",
-    "minimum": {"quick": {"judged": 800, "observations": 20000, "ops": 4000, "wide_histories": 30, "near_pairs": 3000},
+            "history counts only if >= 1 mutating operation and >= 5 observations were judged; plus an in-situ slice: every 7th "
+            "replace_path/substitute call the solver makes itself, result compared with the model and observed",
+    "minimum": {"quick": {"judged": 800, "observations": 20000, "ops": 4000, "wide_histories": 30, "near_pairs": 3000, "insitu_ops_judged": 100},
                 "thorough": {"judged": 20000, "observations": 500000}},
     "assumptions": ["the model reads DerivationTree.value/.children/.id as ground truth of the structure; every other "
                     "method is an observation", "node ids are unique within every generated history"],
@@ -294,8 +295,58 @@ def history(ctx, hseed):
         ctx.inconclusive("trivial-history")
 
 
+def subst_model(m, by_id):
+    if m[2] in by_id:
+        return by_id[m[2]]
+    return [m[0], None if m[1] is None else [subst_model(c, by_id) for c in m[1]], m[2]]
+
+
+def insitu_slice(ctx, rng):
+    """replace_path / substitute calls the solver itself makes (every 7th is recorded): result vs the model, then the
+    observation battery on the result - cached openness/hash flags are exercised along the solver's own histories"""
+    from islamon import insitu
+    fam, gname, g, log = insitu.solver_workload(ctx, rng, ["tree_ops"], nsolve=3, random_share=0.3)
+    for op, t, args, out in log["tree_ops"][:250]:
+        if not ctx.running():
+            break
+        ctx.ev()
+        try:
+            m = TM.snap(t)
+            if len(set(TM.ids(m))) != len(TM.ids(m)):
+                ctx.count("insitu_nonunique_ids_skipped")
+                continue
+            if op == "replace_path":
+                path, repl, retain = args
+                sm = TM.snap(repl)
+                if retain:
+                    sm = [sm[0], sm[1], TM.at(m, path)[2]]
+                exp = TM.replace(m, path, sm)
+            else:
+                from isla.derivation_tree import DerivationTree
+                if not all(isinstance(k, DerivationTree) and isinstance(v, DerivationTree) for k, v in args.items()):
+                    ctx.count("insitu_substitute_with_variable_keys_skipped")
+                    continue
+                exp = subst_model(m, {k.id: TM.snap(v) for k, v in args.items()})
+            got = TM.snap(out)
+            eq(got, exp, f"in-situ {op} result structure")
+            if TM.snap(t) != m:
+                raise Mismatch(f"in-situ {op} changed the receiver")
+            if len(set(TM.ids(got))) == len(TM.ids(got)):
+                observe(ctx, out, got, rng, 6)
+            ctx.count("insitu_ops_judged")
+            ctx.held(("in-situ", op, gname, min(len(TM.ids(got)) // 10, 20), TM.is_open(got)),
+                     sample={"family": fam, "op": op, "result": out.to_string(show_open_leaves=True)[:100]})
+        except Mismatch as e:
+            ctx.violation(e.key, str(e) + f" [in situ, {fam}]", {"family": fam, "grammar_name": gname, "op": op, "tree": TM.snap(t) if len(t) < 80 else None})
+        except RecursionError:
+            ctx.inconclusive("recursion-limit")
+
+
 def run(ctx):
     while ctx.running():
+        if ctx.rng.random() < 0.002:
+            insitu_slice(ctx, ctx.rng)
+            continue
         ctx.ev()
         hseed = ctx.rng.randrange(2 ** 40)
         st, v = ctx.guarded(history, ctx, hseed, timeout=30)
